@@ -9,7 +9,12 @@ from vfw.hspec import H, I, bind
 MISUSE = ["kwonly_param__ARGS", "kwonly_param__KWARGS", "varkw_param__KWARGS", "varpos_param__ARGS", "param__ARGS", "param__KWARGS", "kwarg__ARGS_at_call", "kwarg__KWARGS_at_call", "param_result_with_post",
           "param_OLD_with_post", "param_result_pre_only_is_fine", "invariant_condition_extra_param",
           "invariant_condition_other_param", "invariant_coroutine_condition", "invariant_condition_returns_coroutine", "snapshot_on_bare", "snapshot_above_pre_only",
-          "error_int", "error_str", "error_non_exception_class", "error_object", "error_list"]
+          "error_int", "error_str", "error_non_exception_class", "error_object", "error_list",
+          # callables that are neither functions nor methods nor exception classes
+          "error_callable_object", "error_partial", "error_builtin",
+          # the same misuse on a disabled decorator (enabled=False, the default under -O)
+          "disabled_error_int", "disabled_error_callable_object", "disabled_invariant_extra_param",
+          "disabled_invariant_coroutine_condition"]
 DECOS = ["require", "ensure", "invariant"]
 TARGETS = ["function", "async_function", "method", "staticmethod", "classmethod", "property_getter"]
 
@@ -147,16 +152,37 @@ def _check(m: str, deco: str, target: str) -> Tuple[str, bool]:
             chk = icontract._checkers.find_checker(f)
             return "ValueError at definition", chk is None or not chk.__postcondition_snapshots__
         return "accepted", False
-    if m.startswith("error_"):
+    if m in ("disabled_invariant_extra_param", "disabled_invariant_coroutine_condition"):
+        if deco != "invariant":
+            return "n/a", True
+        try:
+            if m == "disabled_invariant_extra_param":
+                icontract.invariant(lambda self, x: True, enabled=False)
+            else:
+                async def acond2(self: Any) -> bool:
+                    return True
+                icontract.invariant(acond2, enabled=False)
+        except ValueError:
+            return "ValueError at definition", True
+        return "accepted", False
+    if m.startswith("error_") or m.startswith("disabled_error_"):
+        import functools
+
+        class CallableObject:
+            def __call__(self, *a: Any, **k: Any) -> Exception:
+                return ValueError("x")
+        extra = {"enabled": False} if m.startswith("disabled_") else {}
         bad = {"error_int": 42, "error_str": "oops", "error_non_exception_class": int, "error_object": object(),
-               "error_list": [ValueError]}[m]
+               "error_list": [ValueError], "error_callable_object": CallableObject(),
+               "error_partial": functools.partial(ValueError, "x"), "error_builtin": repr,
+               "disabled_error_int": 42, "disabled_error_callable_object": CallableObject()}[m]
         try:
             if deco == "require":
-                icontract.require(lambda: True, error=bad)  # type: ignore
+                icontract.require(lambda: True, error=bad, **extra)  # type: ignore
             elif deco == "ensure":
-                icontract.ensure(lambda: True, error=bad)  # type: ignore
+                icontract.ensure(lambda: True, error=bad, **extra)  # type: ignore
             else:
-                icontract.invariant(lambda self: True, error=bad)  # type: ignore
+                icontract.invariant(lambda self: True, error=bad, **extra)  # type: ignore
         except ValueError:
             return "ValueError at definition", True
         return "accepted", False
